@@ -5,6 +5,7 @@ mod c18;
 mod bm;
 mod c07;
 mod c15;
+mod c10;
 
 use util::*;
 
@@ -28,6 +29,7 @@ fn main() {
     "C07" => c07::run_c07(&mut out, &mut rng, thorough),
     "C15" => c15::run_c15(&mut out, &mut rng, thorough),
     "C09" => c15::run_c09(&mut out, &mut rng, thorough),
+    "C10" => c10::run(&mut out, &mut rng, thorough),
     "C08" => c07::run_c08(&mut out, &mut rng, thorough),
     _ => { eprintln!("unknown property {}", prop); std::process::exit(2); }
   }
